@@ -238,6 +238,28 @@ def parse_failures(s):
     return re.findall(r"\((\S+) ([^()]*)\)", s)
 
 
+
+def changed_anchor_files(prop_id):
+    """anchored files of the property whose AST differs from ref/source_fingerprints.json (the source the
+    hand-written Models were last reconciled with); also anything they plainly import is NOT followed"""
+    try:
+        sys.path.insert(0, os.path.join(VERIF, "tools"))
+        import fingerprint
+        rec = json.load(open(os.path.join(VERIF, "ref", "source_fingerprints.json")))
+        cur = fingerprint.fingerprints(REPO)
+    except Exception as e:  # noqa
+        return ["(fingerprints unavailable: %s)" % type(e).__name__]
+    anchors = []
+    for line in open(os.path.join(VERIF, "properties.jsonl")):
+        d = json.loads(line)
+        if d["id"] == prop_id:
+            anchors = d["anchors"]["files"]
+    out = []
+    for k in sorted(set(cur) | set(rec)):
+        if cur.get(k) != rec.get(k) and any(k == a or k.startswith(a.rstrip("/") + "/") for a in anchors):
+            out.append(k)
+    return out
+
 # ------------------------------------------------------------------ findings
 def load_findings():
     known, fixed = {}, {}
